@@ -84,7 +84,9 @@ structure Verdict where
 
 def process (sc : ScJ) (obs : ObsJ) : Except String Verdict := do
   let kind ← match sc.kind with
-    | "canceled" => pure CtxKind.canceled | "deadline" => pure CtxKind.deadline | k => throw s!"bad kind {k}"
+    | "canceled" => pure CtxKind.canceled | "deadline" => pure CtxKind.deadline
+    | "cause" => pure CtxKind.canceled | "fardeadline" => pure CtxKind.canceled | "child" => pure CtxKind.canceled
+    | k => throw s!"bad kind {k}"
   -- what the implementation did
   let implTrace ← match obs.trace.mapM parseEv with | some t => pure t | none => throw "bad trace in observation"
   -- "H" = the watchdog fired, "P" = a panic was recovered: never a legal outcome, never parsed as one
